@@ -13,7 +13,7 @@ equivalent mutant or a hole in the contracts, and is listed for triage.  Nothing
   python3-vt -m pyvc.mutsweep [-jN] [--out=FILE] [--max-per-fn=N] [--skip=substr,...] [pattern ...]
 """
 import ast, copy, hashlib, json, os, shutil, subprocess, sys, tempfile, time
-from concurrent.futures import ThreadPoolExecutor
+from concurrent.futures import ThreadPoolExecutor, as_completed
 
 VERIF = os.path.dirname(os.path.dirname(os.path.abspath(__file__)))
 sys.path.insert(0, VERIF)
@@ -156,7 +156,7 @@ def run_one(job):
     try:
         write_mutant(repo, target, mnode, scratch)
         try:
-            r = subprocess.run([sys.executable, '-m', 'pyvc.run', '--repo=' + scratch, '-j%d' % inner_jobs, target + '#'],
+            r = subprocess.run([sys.executable, '-m', 'pyvc.run', '--repo=' + scratch, '-j%d' % inner_jobs, target + '#', target + '.'],
                                cwd=VERIF, capture_output=True, text=True, timeout=timeout_s)
             tail = r.stdout.strip().splitlines()[-1] if r.stdout.strip() else r.stderr.strip()[-200:]
             verdict = 'survived' if r.returncode == 0 else 'caught'
@@ -165,7 +165,7 @@ def run_one(job):
                 bad = [l.strip() for l in r.stdout.splitlines() if l.startswith('    ') and not l.strip().startswith(('trace:', 'model:'))]
                 first = bad[0][:200] if bad else tail[:200]
         except subprocess.TimeoutExpired:
-            verdict, first = 'caught', 'timeout of the whole unit run'
+            verdict, first = 'timeout', 'the unit run exceeded %d s' % timeout_s
         res = {'target': target, 'mutant': desc, 'verdict': verdict, 'detail': first, 'wall_s': round(time.time() - t0, 1)}
         if verdict == 'survived':
             env = dict(os.environ, PYTHONPATH=os.path.join(scratch, 'src'))
@@ -183,7 +183,7 @@ def run_one(job):
 
 def main(argv):
     from pyvc import front, run as R
-    jobs, out, maxper, skip, pats, tmo = 8, os.path.join(VERIF, 'mutation', 'sweep.jsonl'), 40, [], [], 900
+    jobs, out, maxper, skip, pats, tmo = 8, os.path.join(VERIF, 'mutation', 'sweep.jsonl'), 40, [], [], 300
     for a in argv:
         if a.startswith('-j'):
             jobs = int(a[2:])
@@ -220,8 +220,11 @@ def main(argv):
                 pass
     work = [w for w in work if (w[1], w[2]) not in done]
     print('%d to run' % len(work), flush=True)
+    import random
+    random.Random(1).shuffle(work)
     with open(out, 'a') as f, ThreadPoolExecutor(max_workers=max(1, jobs // 2)) as ex:
-        for res in ex.map(run_one, work):
+        for fut in as_completed([ex.submit(run_one, w) for w in work]):
+            res = fut.result()
             f.write(json.dumps(res) + '\n')
             f.flush()
             print(res['verdict'], res['target'].split('.')[-1], '|', res['mutant'][:100], '|', res.get('suite', res.get('detail', ''))[:100], flush=True)
